@@ -19,4 +19,7 @@ CONSTANTS
   DropGuarded = TRUE
   CreateFromDrop = TRUE
   ProbeAfterDrop = TRUE
+  PrefixPairs = {}
+  BareColls = {}
+  GcPrefix = FALSE
   TabT = {0, 1, 2, 3}
